@@ -6,7 +6,7 @@ import ast
 from typing import Dict, List, Set
 
 from .. import aux
-from ..astx import calls_in, f_show, linear, single_assign_value, src, walk_no_nested
+from ..astx import calls_in, canon, f_show, linear, single_assign_value, src, walk_no_nested
 from ..core import AnalysisError, Ctx, rule
 from ..region import Unknown, minieval
 from ..resolve import callgraph
@@ -112,7 +112,7 @@ def c19_3(ctx: Ctx):
     t = " ".join(src(ds.node).split())
     ctx.check("opts.force = force and opts.force" in t and "self._symbol_deletions.setdefault(symbol, SymbolDeletionOptions(force))" in t, ds, ds.node,
               "a symbol requested both forced and unforced is treated as unforced", "force merging changed")
-    ctx.check("if symbol.module is not self._module: raise ValueError" in t, ds, ds.node, "foreign symbols are refused", "changed")
+    ctx.check(" ".join(canon("if symbol.module is not self._module:\n    raise ValueError").split())[:-len("raise ValueError")].strip() in t and "raise ValueError" in t, ds, ds.node, "foreign symbols are refused", "changed")
 
 
 @rule("C19.4", ["C19"], "version definitions/requirements are dropped exactly when unused; the base definition always stays", 7)
